@@ -222,6 +222,27 @@ def _languages(ctx, rep, cm, fnm, fm):
         w = _word_with(d, set(seps) | {ord("#")})
         rep.add("tag-languages", "{}::{} stops at separators and has one '#'".format(cm.rel, k), where, w is None,
                 "" if w is None else "the {} pattern accepts {!r}".format(k, w))
+    # the patterns run on the normalised text: a character of a valid hashtag that the normaliser
+    # rewrites (a separator class that has grown to hold '_', a dash class holding a tag character
+    # other than '-') cuts the tag before the label patterns see it
+    try:
+        from .c11 import normaliser_classes
+        ncm, classes = normaliser_classes(ctx)
+    except (AnalysisError, Undecided, KeyError, AttributeError):
+        classes = []
+    tag_chars = sorted({ord(c) for c in "#_-"} | set(range(ord("a"), ord("z") + 1)) |
+                       set(range(ord("A"), ord("Z") + 1)) | set(range(ord("0"), ord("9") + 1)))
+    for i, cl in enumerate(classes):
+        if cl is None:
+            continue
+        sepc, dashc, rnode = cl
+        bad = [cp for cp in tag_chars if sepc.contains(cp) or (dashc.contains(cp) and cp != ord("-"))]
+        rep.add("tag-languages", "{}::_preprocess_string::keeps hashtag characters [return {}]".format(ncm.rel, i + 1),
+                ncm.where(rnode), not bad,
+                "" if not bad else "the normaliser rewrites {} which valid hashtags ({}) contain: the label patterns "
+                "run on the normalised text and see the tag cut there".format(
+                    [chr(c) for c in bad[:5]], VALID_TAG),
+                witness=None if not bad else {"tag": "#a{}b".format(chr(bad[0]))})
     # the label is the match minus '#'
     ok = False
     for n in ast.walk(helper):
